@@ -43,6 +43,8 @@ def _bases(tier: str):
     hand = [
         ("sparse memo keys 5 and 9", b"\x80\x02]q\x05K\x01aq\x09."), ("memo key 1 and 2 in use", b"\x80\x02]q\x01]q\x02\x86."),
         ("text PUT 321987 in use", b"]p321987\n."), ("MEMOIZE after sparse BINPUT", b"\x80\x04]q\x03\x94K\x01a."),
+        ("MEMOIZE overwriting the slot a text PUT used", b"]p1\nK\x05\x94a."), ("a lone BINPUT 2 (sparse memo)", b"\x80\x02]q\x02K\x01a."),
+        ("two PROTO opcodes (2 then 4)", b"\x80\x02\x80\x04]\x94K\x01a."),
         ("GLOBAL result", b"ccollections\nOrderedDict\n."),
         ("torch-like state dict (BINPERSID storage)", [d for l, d in __import__("sa.props.c06", fromlist=["_corpus"])._corpus("quick") if l.startswith("torch-like")][0]),
     ]
@@ -52,6 +54,7 @@ def _bases(tier: str):
     for p in ((4, 5) if tier == "thorough" else (4,)):
         out.append((f"pickle.dumps(two 70000-byte members, the tail outside any frame, protocol={p})", pickle.dumps({"a": [b"z" * 70000], "b": "q" * 70000}, p)))
     if tier == "thorough":
+        out.append(("400 long entries at protocol 4 (two FRAME opcodes)", pickle.dumps({f"layer{i}.weight": (f"{i:04d}" + "v" * 180, i) for i in range(400)}, 4)))
         out += [("asm:" + l, d) for l, d in list(V._valid_programs(V.MEMO_ALPHABET, 4))[::6]]
     return out
 
